@@ -555,6 +555,19 @@ def gen_bits(rng, tier):
                 for v in vals:
                     init = rng.choice(["0", "f", "r" + hx(rng.getrandbits(60))])
                     ops.append(f"bits{W}.set init={init} {hx(off)} {hx(n)} {hx(v)}")
+    # far offsets: bit 31 / bit 32 / bit 33 of the bit offset set (streams of 256 MiB and more, sparse mapping);
+    # every in-slot phase that straddles or ends a slot
+    for W in (8, 16, 32, 64):
+        bases = [1 << 31, (1 << 31) + (1 << 20), 1 << 32, (1 << 32) + (1 << 31), 1 << 33]
+        for base in bases:
+            for _ in range(3 if tier == "quick" else 60):
+                o = rng.randrange(W)
+                n = rng.randint(1, W)
+                if rng.random() < 0.7:           # straddle the slot boundary
+                    n = min(W, max(n, W - o + 1))
+                v = rng.choice([(1 << n) - 1, rng.getrandbits(n), 1 << (n - 1)])
+                init = rng.choice(["0", "f", "r" + hx(rng.getrandbits(60))])
+                ops.append(f"bits{W}.far init={init} {hx(base + W * rng.randrange(3) + o)} {hx(n)} {hx(v)}")
     for n in range(2, 65):
         lim = (1 << (n - 1)) - 1
         pts = {0, 1, -1, lim, -lim, lim // 2, -(lim // 2)}
